@@ -16,6 +16,8 @@ CONSTANTS
   DevNilFwd = FALSE
   DevStaleSrc = FALSE
   DevSleepLimiter = TRUE
+  DevWriteLock = FALSE
+  DevRouteFirst = FALSE
   Gen = FALSE
   Emit = FALSE
 SPECIFICATION LiveSpec
